@@ -42,3 +42,9 @@ add("C06", "model_checking",
     "Every corpus of <=2 documents over group x numeric value x timestamp (n=3 over a reduced alphabet) is split into every partition of <=3 fractions; the per-fraction partial results of one request carrying 38 aggregation specs (count, unique, sum/min/max/avg, three quantile lists, with/without group, with/without time interval) and a histogram are merged in every permutation and parenthesisation and must equal the values computed directly from the documents; a subset is repeated through Ingestor.Search over two in-process shards to cover the store<->proxy conversion. Found and repaired: quantile lists containing only 0/1 answered NaN.",
     "Trusted: refdb/agg.go including the store API's not-exists conventions (documented there); single-valued group/field tokens and dyadic values only.",
     "DESIGN.md §3 C06", "E3-smallscope")
+
+add("C17", "model_checking",
+    "exhaustive enumeration of bulk histories with re-sent IDs (all ordered sub-bulks, all histories up to depth 3, rotation variant) on the real indexing path, judged on active / sealed / reopened fractions against set-semantics refdb",
+    "Every history of <=3 bulks over an ID universe of 4 documents (each bulk any ordered subset of <=3 distinct IDs, so whole-bulk repeats, partial overlaps, the same earlier document several times and repeats interleaved with new data are all present) is ingested through the real appendWorker path; listing, totals, histogram, count/sum aggregations, the fraction's document count and fetch must equal the deduplicated reference on the active fraction, after sealing and after reopening from files; the variant with the first bulk in an earlier sealed fraction checks listing-once and fetch across fractions. The concurrent-repeat part of the quantifier is explored by the C07 scheduler harness.",
+    "Trusted: refdb with set semantics. Quick restricts the third bulk to <=2 IDs; thorough lifts it.",
+    "DESIGN.md §3 C17", "E3-smallscope")
